@@ -129,6 +129,12 @@ def run(ctx):
             st, dec = second[b]["foreign_dec_bytes"][i]
             if st != "ok" or tagged(dec) != tv:
                 ctx.violation("cross_round_trip_bytes", f"{b} decoding the other backend's UTF-8 bytes gave {dec!r} != v", case)
+            rd = first[b].get("redecode", [None] * (i + 1))[i]
+            if rd is not None:
+                ctx.count("decode_scribble_decode_sequences")
+                if rd[0] != "ok" or tagged(rd[1][0]) != tv or tagged(rd[1][1]) != tv:
+                    ctx.violation("decoded_value_shared_between_calls", f"{b}: decoding the same text again after the first "
+                                  f"result was edited in place gave {rd[1]!r}", case)
             for key in ("file_text", "file_binary"):
                 fr = first[b][key][i] if i < len(first[b][key]) else None
                 if fr is None:
